@@ -136,6 +136,40 @@ theorem resolve_missing_dir (t : Tree) (cur : Path) (c c' : String) (rest : List
     resolve t cur (c :: c' :: rest) = .error .ENOENT := by
   simp [resolve, stepDir, existing, h1, h2, h3, hm]
 
+/-! ## trailing slashes -/
+
+theorem dropTrailingEmpty_replicate (m : Nat) : dropTrailingEmpty (List.replicate m "") = [] := by
+  induction m with
+  | zero => rfl
+  | succ m ih => simp [List.replicate_succ, dropTrailingEmpty, ih]
+
+theorem dropTrailingEmpty_name (name : String) (m : Nat) (h : name ≠ "") :
+    dropTrailingEmpty (name :: List.replicate m "") = [name] := by
+  simp [dropTrailingEmpty, dropTrailingEmpty_replicate, h]
+
+theorem dropTrailingEmpty_append (pre l : List String) (h : dropTrailingEmpty l ≠ []) :
+    dropTrailingEmpty (pre ++ l) = pre ++ dropTrailingEmpty l := by
+  induction pre with
+  | nil => rfl
+  | cons c cs ih =>
+    have hne : cs ++ dropTrailingEmpty l ≠ [] := by simp [h]
+    simp only [List.cons_append, dropTrailingEmpty, ih]
+
+theorem slashAfterName_shape (pre : List String) (name : String) (n : Nat)
+    (h1 : name ≠ "") (h2 : name ≠ ".") (h3 : name ≠ "..") :
+    dropTrailingEmpty (pre ++ name :: List.replicate (n + 1) "") = pre ++ [name] ∧
+    slashAfterName (pre ++ name :: List.replicate (n + 1) "") = true := by
+  have hd : dropTrailingEmpty (pre ++ name :: List.replicate (n + 1) "") = pre ++ [name] := by
+    rw [dropTrailingEmpty_append _ _ (by simp [dropTrailingEmpty_name name _ h1]), dropTrailingEmpty_name name _ h1]
+  refine ⟨hd, ?_⟩
+  unfold slashAfterName
+  rw [hd]
+  have hl : (pre ++ name :: List.replicate (n + 1) "").getLast? = some "" := by
+    rw [List.replicate_succ', ← List.cons_append, ← List.append_assoc, List.getLast?_append]
+    simp
+  simp [hl, h2, h3]
+
+
 /-! ## concrete states used by the non-vacuity examples in Theorems.lean -/
 
 /-- descriptors 0 and 2 open, 1 free -/
